@@ -93,7 +93,8 @@ PLAN = {
         clauses=["R1 returned value carries the looked-up key", "R2 written by an insert that returned true or an in-place write, not from the future",
                  "R3a no value written before a remove that was applied (later wait() Ok, no clear overlapping)", "R3a' removal of an observably resident value is immediate",
                  "R3b no value written before a clear() that returned before the look-up began", "R4 an update still resident at the end is returned by every look-up after it",
-                 "never a value already handed to a callback", "R5 (lockstep) exactly the last value written; update path taken inside the call", "gated: with the processor parked, an update-path insert is visible to the next look-up and a removed value is not"],
+                 "never a value already handed to a callback", "R5 (lockstep) exactly the last value written; update path taken inside the call", "gated: with the processor parked, an update-path insert is visible to the next look-up and a removed value is not",
+                 "a third of the hostile histories run under the colliding key builder (keys 2i / 2i+1 share the index hash): buffered inserts, removes and in-place updates of colliding keys race each other; only the C02 / C18 value clauses are decided there"],
         minimum=dict(quick=dict(ho_c02_lookups_checked=20000, ho_c02_r3_candidates=5000, ls_histories=200)),
         assumptions=["registers are not linearizable by design (a new key becomes visible asynchronously): the clauses above are what the statement promises"],
     ),
@@ -172,10 +173,11 @@ PLAN = {
         assumptions=["several writes to one key between two barriers are applied out of program order by design (updates at once, queued removes and first inserts later)"],
     ),
     "C11": dict(
-        stages=[ls("C11", q=400), ls_async_quick("C11"), ho("C11", q=100), ga(), tsan("hostile")],
+        stages=[ls("C11", q=400), ls_async_quick("C11"), ls("C11", q=150, t=1500, shards_q=2, shards_t=8, profile="C19"), ho("C11", q=100), ga(), tsan("hostile")],
         rule=LS + " || " + HO + " || " + GA + SAN,
         clauses=["after clear(): every key absent, len 0, used 0, counters zero, histogram empty", "afterwards exactly the fresh-cache model, incl. keys re-used with another TTL or none across their old expiry seconds",
                  "concurrent: nothing written before a completed clear() is returned afterwards; barrier clauses for inserts begun after clear() returned",
+                 "lockstep: the metric balances (keys added - evicted == charged entries, cost added - evicted == used) that held at every record before the first clear() hold at every record after it (also on a stage with varying costs, Coster and validators)",
                  "fresh-equivalence: the history after the last clear(), replayed at the same virtual instants on a freshly built cache, gives identical returns, look-ups, TTLs, callbacks, resident entries, charges, metrics and histogram, record by record (every second below-capacity history; 2 of 10 under a colliding key builder)"],
         minimum=dict(quick=dict(ls_clears=1000, ho_op_clear=300, c11_suffixes_replayed_on_a_fresh_cache=100)),
         assumptions=[],
@@ -184,7 +186,7 @@ PLAN = {
         stages=[dict(engine="close", shards=dict(quick=4, thorough=16), args=["--quick-n", "480", "--thorough-n", "8000"]), miri("lifecycle"), tsan("close", n=120, shards=2, extra=["--flavors", "sync"])],
         rule="scenarios x flavours (sync, tokio multi-thread, tokio current-thread, async-std, thread-per-task): close idle / after a history / 2-8 concurrent closers / "
              "try_* + wait + clear + get_ttl racing the close / drop without close / close with a pending buffer / directed: closer parked between its clear() and its stop signal while inserts are admitted (entries resident when close() returns); distinct by scenario description",
-        clauses=["no panic, no hang (state-based)", "after a close() returned Ok: insert false, look-ups None, remove/clear/wait/close Ok, no effect on the cache", "both workers exit (guard counters); OS thread count back to baseline (sync); spawned tasks finished (async)",
+        clauses=["no panic, no hang (state-based)", "after a close() returned Ok: insert false, look-ups None, remove/clear/wait/close Ok, no effect on the cache", "every insert variant (insert, insert_with_ttl, insert_if_present) on every key of the scenario returns false after close(), also on keys whose entry was left in the closed store by an insert racing the close", "both workers exit (guard counters); OS thread count back to baseline (sync); spawned tasks finished (async)",
                  "same when all handles are dropped without close()"],
         minimum=dict(quick=dict(lc_close_scenarios=480, lc_entries_resident_when_close_returned=20)),
         assumptions=[],
@@ -235,9 +237,9 @@ PLAN = {
         assumptions=[],
     ),
     "C18": dict(
-        stages=[dict(engine="keys", shards=dict(quick=1, thorough=4)), ls("C18")],
+        stages=[dict(engine="keys", shards=dict(quick=1, thorough=4)), ls("C18"), ho("C18", q=40, t=400)],
         rule="(a) DefaultKeyBuilder on random strings / byte vectors / u64 through every borrow form; (b) TransparentKeyBuilder exhaustively for bool,u8,i8,u16,i16 and on boundaries, powers of two and random values for the wider types; "
-             "(c) " + LS + " with a key builder that maps keys 2i and 2i+1 to one index with distinct non-zero conflicts",
+             "(c) " + LS + " with a key builder that maps keys 2i and 2i+1 to one index with distinct non-zero conflicts; (d) " + HO + " under the same colliding key builder (buffered inserts / removes of colliding keys racing each other; only the value clauses are decided there)",
         clauses=["same (index, conflict) for String/&str, Vec<u8>/&[u8], u64 by value/reference, repeated", "build_key == (hash_index, hash_conflict)",
                  "TransparentKeyBuilder: (x as u64, 0)", "distinct integer keys => distinct indices",
                  "under index collision: no operation on one key returns, overwrites or removes the other key's value"],
